@@ -747,6 +747,26 @@ def decode_model_test(v):
     return out
 
 
+def replay_case(case):
+    """re-runs the fabricated project of an e2e failure with the cache on and off and prints what run_test reported"""
+    tmp = tempfile.mkdtemp(prefix="c16_replay_")
+    trees = case["trees"]
+    bindir = (make_invariant_project if case.get("invariant") else make_project)(tmp, trees)
+    for k, t in enumerate(trees):
+        print(f"  tree {k}: {t}")
+    for cache in (True, False):
+        o = run_child(bindir, tmp, cache, 600, case.get("sync", True))
+        if "error" in o:
+            print("  cache", "on " if cache else "off", "halmos failed:", o["error"][-400:])
+            continue
+        print("  cache", "on " if cache else "off", "clashes:", o["clashes"][:4])
+        for x in o["results"]:
+            stuck = [c["pid"] for c in x["consumers"] if c["kind"] == "stuck"]
+            asked = sorted({l["pid"] for l in x["low"]})
+            print(f"    {x['name']}: exit {x['exitcode']} paths (total, normal, stuck) {x['num_paths']} outputs {x['outputs']} stored cores {x['final_cores']}"
+                  f" stuck-path queries {stuck} solver asked for paths {asked}")
+
+
 def run_e2e(rep, tier, r, fail, m=None):
     # quick: the corpus and a random project in sync mode, a random project with the solver racing the engine
     # + invariant projects (sync): one function context fed by several independent runs, the id free-list probe on
@@ -785,8 +805,8 @@ def run_e2e(rep, tier, r, fail, m=None):
         invariant = k >= nproj
         rep.count("case_kind", "e2e:" + ("invariant" if invariant else "sync" if sync else "racing"))
         rep.count("e2e_hits", min(hits, 5))
-        rep.case({"kind": "e2e", "trees": trees, "sync": sync}, nontrivial=hits > 0)
-        case = {"kind": "e2e", "trees": trees, "sync": sync}
+        rep.case({"kind": "e2e", "trees": trees, "sync": sync, "invariant": invariant}, nontrivial=hits > 0)
+        case = {"kind": "e2e", "trees": trees, "sync": sync, "invariant": invariant}
         if "error" in on or "error" in off:
             fail("broken-tie", f"halmos run on fabricated project {k} failed: {(on.get('error') or off.get('error'))[-600:]}", case)
             continue
